@@ -100,3 +100,8 @@ def nontrivial(case, result):
     w, n = int(toks[1]), int(toks[2])
     amt = int(toks[4][2:], 16)
     return amt % w != 0 or amt >= w * n
+
+
+def prebuild(root):
+    """translator: regenerate coq/Generated/Loops.v from /repo/src/buint/*.rs (proved equal to the model in Proofs/LoopsTieC05.v)"""
+    return run_translator(root, "rs2v_loops.py")
